@@ -120,7 +120,9 @@ def run(rep):
            'all': all, 'bool': bool, 'isinstance': isinstance, 'str': str, 'bytes': bytes, 'tuple': tuple}
     try:
         if rep.get('tree') is not None:
-            root = tempfile.mkdtemp(prefix='wcverif_replay_')
+            parent = tempfile.mkdtemp(prefix='wcverif_replay_')     # private parent directory (see fsdriver.on_real_tree)
+            root = os.path.join(parent, 'wcvroot')
+            os.mkdir(root)
             materialise(rep['tree'], root)
         if rep.get('chdir') and root:
             os.chdir(root)
@@ -151,7 +153,7 @@ def run(rep):
             os.scandir = real_scandir
         os.chdir(old)
         if root:
-            shutil.rmtree(root, ignore_errors=True)
+            shutil.rmtree(os.path.dirname(root), ignore_errors=True)
 
 
 def main():
